@@ -17,6 +17,52 @@ def getBoolD (j : Json) (k : String) (d : Bool) : Except String Bool :=
   | .ok _ => getBool j k
   | .error _ => pure d
 
+
+/-- `alpha` on the wire: `null` (None), `"auto"`, `"auto_po2"`, or an exact rational -/
+def alphaOfJson (j : Json) (k : String) : Except String Alpha :=
+  match j.getObjVal? k with
+  | .error _ => pure .none
+  | .ok .null => pure .none
+  | .ok (.str "auto") => pure .auto
+  | .ok (.str "auto_po2") => pure .autoPo2
+  | .ok v => do pure (.num (← ratOfJson v))
+
+def alphaToJson : Alpha → Json
+  | .none => .null
+  | .auto => .str "auto"
+  | .autoPo2 => .str "auto_po2"
+  | .num a => ratToJson a
+
+def optRatToJson : Option Rat → Json
+  | none => .null
+  | some r => ratToJson r
+
+def optRatsToJson : Option (List Rat) → Json
+  | none => .null
+  | some l => ratsToJson l
+
+def ternObjToJson (o : TernObj) : List (String × Json) :=
+  [("alpha", alphaToJson o.alpha), ("threshold", optRatToJson o.threshold),
+   ("use_stochastic_rounding", Json.bool o.stoch), ("number_of_unrolls", Json.num (o.unrolls : Int))]
+
+def binObjToJson (o : BinObj) : List (String × Json) :=
+  [("use_01", Json.bool o.use01), ("alpha", alphaToJson o.alpha), ("use_stochastic_rounding", Json.bool o.stoch)]
+
+/-- the float-sensitive spots of the "auto_po2" iteration: every pre-rounding scale must be at least
+    2^-10 (relative) away from a rounding boundary `sqrt2 * 2^k` of `2^round(log2 .)` — then the float32
+    evaluation of the code and the exact one round to the same power of two -/
+def bandOk (s : Rat) : Bool :=
+  decide (0 < s) && (roundLog2 (s * (1 + pow2 (-10)) + epsK) == roundLog2 (s * (1 - pow2 (-10)) + epsK))
+
+/-- `(scale_0 .. scale_n, band flags)` of the inference iteration on one channel -/
+def ternTrace (po2 : Bool) (xs : List Rat) : Nat → Rat → List Rat × List Bool
+  | 0, scale => ([scale], [])
+  | n + 1, scale =>
+    let q := ternCodes false false xs scale []
+    let raw := lsScale false xs q
+    let r := ternTrace po2 xs n (lsScale po2 xs q)
+    (scale :: r.1, (!po2 || bandOk raw) :: r.2)
+
 def zip3 (a b c : List Rat) : List (Rat × Rat × Rat) := (a.zip (b.zip c))
 
 def bitsCfgOfJson (j : Json) : Except String BitsCfg := do
@@ -169,6 +215,47 @@ def handle (j : Json) : Except String Json := do
       let ys := (zip3 xs ps u1).map fun (x, p, r) => stochasticBinary phase alpha x p r
       pure <| Json.mkObj [("y", ratsToJson ys)]
     | _ => throw s!"unknown class {cls}"
+  | "init" =>
+    -- the constructors: arguments -> the attributes the calls read
+    let cls ← getStr j "cls"
+    let alpha ← alphaOfJson j "alpha"
+    match cls with
+    | "ternary" =>
+      let o := ternaryInit alpha (← getOptRat j "threshold") (← getBoolD j "use_stochastic_rounding" false)
+                 (← getNat j "number_of_unrolls")
+      pure <| Json.mkObj (ternObjToJson o)
+    | "stochastic_ternary" =>
+      let o := stochasticTernaryInit alpha (← getOptRat j "threshold") (← getRat j "temperature")
+                 (← getBool j "use_real_sigmoid") (← getNat j "number_of_unrolls")
+      pure <| Json.mkObj (ternObjToJson o.base ++
+        [("temperature", ratToJson o.temperature), ("use_real_sigmoid", Json.bool o.realSigmoid)])
+    | "binary" =>
+      let o := binaryInit (← getBoolD j "use_01" false) alpha (← getBoolD j "use_stochastic_rounding" false)
+      pure <| Json.mkObj (binObjToJson o)
+    | "stochastic_binary" =>
+      let o := stochasticBinaryInit alpha (← getRat j "temperature") (← getBool j "use_real_sigmoid")
+      pure <| Json.mkObj (binObjToJson o.base ++
+        [("temperature", ratToJson o.temperature), ("use_real_sigmoid", Json.bool o.realSigmoid)])
+    | _ => throw s!"unknown class {cls}"
+  | "tcall" =>
+    -- whole call at phase 0 on ONE channel (column) of a rank-2 tensor, object built by the constructor
+    let cls ← getStr j "cls"
+    let alpha ← alphaOfJson j "alpha"
+    let thr ← getOptRat j "threshold"
+    let n ← getNat j "number_of_unrolls"
+    let xs ← getRatList j "x"
+    let y ← match cls with
+      | "ternary" =>
+        pure (ternaryCall (ternaryInit alpha thr (← getBoolD j "use_stochastic_rounding" false) n) false xs [])
+      | "stochastic_ternary" =>
+        pure (stochasticTernaryCall (stochasticTernaryInit alpha thr (← getRat j "temperature")
+                (← getBool j "use_real_sigmoid") n) false xs 0 [] [] [] [])
+      | _ => throw s!"unknown class {cls}"
+    let po2 := decide (alpha = .autoPo2)
+    let tr := if alpha.isAuto then ternTrace po2 xs n (ternStart po2 xs) else ([], [])
+    let startOk := !po2 || bandOk (2 * maxAbs xs / 3)
+    pure <| Json.mkObj [("y", optRatsToJson y), ("scales", ratsToJson tr.1),
+                        ("band_ok", Json.bool (startOk && tr.2.all id))]
   | "binshape" =>
     let shape ← getNatList j "shape"
     pure <| Json.mkObj [("ok", Json.bool (binaryInferShapeOk shape))]
